@@ -482,9 +482,73 @@ def stepQ (ff : UInt64 → Option Bytes) (d : DV) (q : Q) (obs : String) : Strin
     | none, some f => s!"PROPFAIL {f}{div}"
   | _ => "BADOP obs"
 
+/-! ### B lines: AddChild / Remove histories on one struct (FqModel.JQValue `Cmp`) -/
+
+def parseBOp (i : Nat) (s : String) : Option CmpOp :=
+  match words s with
+  | ["add", k] => (bytesOfHex k).map (fun b => CmpOp.add b (.scalar (.uint (i + 1)) none true))
+  | ["rm", k] => (bytesOfHex k).map CmpOp.rm
+  | _ => none
+
+def opName : CmpOp → Bytes
+  | .add k _ => k
+  | .rm k => k
+
+def insertName (k : Bytes) : List Bytes → List Bytes
+  | [] => [k]
+  | x :: xs => if bytesLt k x then k :: x :: xs else if bytesEq k x then x :: xs else x :: insertName k xs
+
+def cmpSnapshot (c : Cmp) (names : List Bytes) : String :=
+  let ks := c.children.map (fun f => hx f.1)
+  let k := if ks.isEmpty then "-" else ",".intercalate ks
+  let h := String.join (names.map (fun n => match c.mHas (.str n) with
+    | .ok (.bool true) => "1"
+    | _ => "0"))
+  let v := ",".intercalate (names.map (fun n => match c.mKey n with
+    | .ok (.dv (.scalar (.uint u) _ _)) => toString u
+    | .ok (.dv _) => "?"
+    | _ => "-"))
+  s!"K{k} H{h} V{v}"
+
+/-- the model's snapshots, step by step, until the decoder stops -/
+def cmpSnapshots (names : List Bytes) : List CmpOp → Cmp → List String
+  | [], _ => []
+  | op :: ops, c => match op.apply Cmp.remove c with
+    | some c' => cmpSnapshot c' names :: cmpSnapshots names ops c'
+    | none => ["fatal"]
+
+/-- the property on an observed snapshot: the ByName answers (has, .k) agree with the children (keys) -/
+def snapshotConsistent (names : List Bytes) (snap : String) : Bool :=
+  if snap == "fatal" then true else
+  match words snap with
+  | [k, h, v] =>
+    let keys := if k == "K-" then [] else (tailStr k).splitOn ","
+    let hs := (tailStr h).toList
+    let vs := (tailStr v).splitOn ","
+    hs.length == names.length && vs.length == names.length &&
+      ((names.zip (hs.zip vs)).all (fun (n, hb, vv) =>
+        let present := keys.contains (hx n)
+        (hb == '1') == present && (vv != "-") == present))
+  | _ => false
+
+def stepB (opsText obs : String) : String :=
+  let parts := splitOps opsText
+  let ops := (List.range parts.length).zip parts |>.map (fun (i, p) => parseBOp i p)
+  if ops.any Option.isNone then "BADOP builder-op" else
+  let ops := ops.filterMap id
+  let names := ops.foldl (fun u o => insertName (opName o) u) []
+  let model := " ; ".intercalate (cmpSnapshots names ops Cmp.empty)
+  let impl := " ; ".intercalate (splitOps obs)
+  let bad := (splitOps obs).find? (fun s => !snapshotConsistent names s)
+  let div := if model == impl then "" else s!" ;DIVERGE model={model}"
+  match bad with
+  | some sn => s!"PROPFAIL after this AddChild/Remove history `.k`/has (ByName) disagree with keys/tovalue (Children): {sn}{div}"
+  | none => if div.isEmpty then "OK" else s!"DIVERGE model={model}"
+
 def stripNotes (ws : List String) : List String := ws.filter (fun w => !w.startsWith "@")
 
 def stepC08 (op obs : String) : String :=
+  if op.startsWith "B " then stepB (String.ofList (op.toList.drop 2)) obs else
   match op.splitOn " | " with
   | [head, rest] =>
     match stripNotes (words head) with
